@@ -21,7 +21,7 @@ def lattice_loops(ctx, rnd):
                                              invariants=INLOOP_INV), workers=12, timeout=2400, heap="4g" if q else "8g")
         cases += r.tagged.get("CASE", [])
     # N = 2: 98 primitive directions; sub-lattices
-    for _ in range(1 if q else 4):
+    for _ in range(1 if q else 2):
         sub = set(rnd.sample(range(1, 99), 7 if q else 11))
         probes = sub | set(rnd.sample(range(1, 99), 40))
         r = ctx.tlc("Gen_InLoop", vlib.cfg(constants={"N": 2, "SubIdx": sub, "ProbeIdx": probes, "MaxLen": 4 if q else 5, "Op": '"c04loop"', "NQ": 0},
